@@ -56,6 +56,13 @@ FAMILIES = {
     "flt_hdr":          (32, None),
     "flt_extra":        (40, 800),
     "flt_extra_t":      (6, None),
+    # the data writer sends the Close itself through the message API (WriteMessage / NextWriter / prepared) and
+    # goes on calling every entry point (WritePreparedMessage too): each call fails with close-sent, no panic
+    "dc_wm":            (14, None),
+    "dc_nw":            (60, None),
+    "dc_pm":            (12, None),
+    "kc_pm":            (25, None),     # the Close of another goroutine, D goes on with prepared messages
+    "atk_dnolatch":     (12, None),
     "atk_flt":          (25, None),     # ... and is not made sticky: somebody writes behind the truncated frame
 }
 THOROUGH_ONLY = {
@@ -200,7 +207,8 @@ def run(ctx):
         "control write deadlines are of two classes: far away (the call waits for the lock for ever) and short (2 ms: the call may "
         "give up with the write timeout error; time itself is not modelled, giving up is possible whenever such a call waits); "
         "a call that began after the Close frame and gave up on its short deadline counts as failed although its error is not close-sent",
-        "one data writer (the package forbids more), compression off, write buffer 256 bytes, server and client role",
+        "one data writer (the package forbids more), compression off, write buffer 256 bytes, server and client role; the message "
+        "API is WriteMessage, NextWriter+Write+Close and WritePreparedMessage, each also with a Close frame as the message",
         "the reader writes only from the handlers of Ping and Close frames of the peer (default handlers of the package, whose "
         "deadline is the package's one second: they may give up and do not show their result, and handlers of the application "
         "that call WriteControl without deadline); the peer's frames are well-formed; the application pauses only between two "
@@ -243,6 +251,8 @@ def run(ctx):
           # control frames that reach the transport in two adjacent writes; a foreign write between them
           ("MC_WsConc_ctl2.cfg", None), ("MC_WsConc_ctl2_nolock.cfg", "WholeFrames"),
           # transport writes that fail with the transport open; the failure not made sticky
+          # the Close frame sent by the data writer through the message API; ... not latched
+          ("MC_WsConc_dclose.cfg", None), ("MC_WsConc_dclose_nolatch.cfg", "AfterClose"),
           ("MC_WsConc_fault.cfg", None), ("MC_WsConc_fault2.cfg", None), ("MC_WsConc_fault_nolatch.cfg", "CutIsLast")]
     if not quick:
         mc += [("MC_WsConc_twoclose.cfg", None), ("MC_WsConc_big.cfg", None), ("MC_WsConc_timeoutbig.cfg", None),
